@@ -648,9 +648,11 @@ def write_replay(prop, payload):
 # ------------------------------------------------------------------ evidence
 
 TRUSTED_BASE = [
-    "Coq 8.16.1 kernel (coqc; vm_compute for computed Examples; no native_compute)",
+    "Coq 8.16.1 kernel (coqc; vm_compute for computed Examples; no native_compute); coqchk -o in the thorough tier",
     "hand-written Gallina model of each operator (coq/theories/Ops.v) - tied to /repo only by the correspondence check",
     "machine semantics and conformant-environment relation (coq/theories/Machine.v)",
+    "net semantics of wired components (coq/theories/Chain.v, Tree.v: which node runs when a wired call is made) - tied to "
+    "/repo by running random operator trees as nets of the component models and on the crate",
     "extraction with ExtrOcamlBasic only (no Extract Constant), OCaml 4.13.1, driver/main.ml (parsing/printing, candidate moves)",
     "Rust harness harness/src/*.rs (puppets, recording sinks, virtual clock, canonical trace printer)",
     "user closures are pure; peers follow the conformant environment of DESIGN.md section 3.3",
@@ -930,6 +932,16 @@ def c06_check(prop, tier, seed, t0):
         model += m
         real += h
     bad = [(p, m, h) for p, m, h in zip(pipes, model, real) if m.strip() != h.strip()]
+    # the composition theorems (Chain.v, Tree.v, TreeFunctional.v) speak about nets of component models: random
+    # operator trees run as such nets and on the crate under scripted sinks; the sink's view must be equal
+    rc = sh([DRIVER, "genchain", str(seed + 5), str(n // 5)])
+    trees = [l for l in rc.stdout.splitlines() if l.strip()]
+    tmodel, treal = [], []
+    for part in parallel_map(lambda ch: (run_model(ch), run_real(ch, "plain")) if ch else ([], []), chunked(trees, 16)):
+        tmodel += part[0]
+        treal += part[1]
+    tbad = [(t, m[0], h) for t, m, h in zip(trees, tmodel, treal) if m[0] != h]
+    bad += [(t, "net of component models: " + m, h) for t, m, h in tbad]
     out, status = [], 0
     for p, m, h in bad[:3]:
         path = write_replay(prop, dict(kind="failing-history", property=prop, pipeline=p,
@@ -958,8 +970,9 @@ def c06_check(prop, tier, seed, t0):
              "pipe!; each is run on the real crate twice (for_each; a probe that sees completion) and compared with "
              "the lazy pull interpreter (arguments of f in order, number of Iterator::next calls, completion); "
              "non-trivial = at least one stage, distinct by program text",
-        traces_validated_against_impl=len(pipes) - len(bad), correspondence_mismatches=len(bad),
+        traces_validated_against_impl=len(pipes) + len(trees) - len(bad), correspondence_mismatches=len(bad),
         pipeline_depth_histogram=depth_hist,
+        operator_trees_run_as_nets_of_component_models=len(trees), net_vs_crate_mismatches=len(tbad),
         samples=[dict(pipeline=p, crate=h) for p, h in list(zip(pipes, real))[:2] + list(zip(pipes, real))[-2:]],
     )
     write_evidence(prop, tier, seed, t0, cov, len(bad),
